@@ -510,7 +510,14 @@ pub fn drive_enc(spec: &EncSpec, mode: EncMode, source: &mut dyn OpSource, mut p
                 let src_units = end - consumed;
                 let last = eof && visible == nchars;
                 let pending_state = encs[0].has_pending_state();
-                let mut cap = offer.cap.max(min);
+                // the Encoder documentation states no minimum output size: a sink
+                // below what C08 needs for progress (even an empty one) may only be
+                // answered with OutputFull - never with a panic-free wrong answer
+                // (InputEmpty with the trailer missing, bytes outside the buffer)
+                let mut cap = if offer.submin { offer.cap } else { offer.cap.max(min) };
+                if offer.submin {
+                    run.probe("sub_minimum_sink");
+                }
                 let mut by_query = false;
                 if offer.query {
                     if let Some(q) = query_for_enc(&encs[0], spec.form16, spec.repl, src_units) {
